@@ -6,6 +6,7 @@ import (
 	"io"
 	"net/http"
 	"strings"
+	"time"
 
 	"verif/mc"
 )
@@ -26,6 +27,7 @@ import (
 //     for "more than 256 KB pending" -- gives up and closes the connection
 //     after the reply;
 //   - (scenario option "fullduplex") a server in full-duplex mode, where that rule is off;
+//   - (scenario option "srvdl") a request context that already has a far deadline of the server's own;
 //   - cancellation closing the connection; the server noticing a closed
 //     connection through failing body reads, and through its background read
 //     (which cancels the request context) only once the body has hit EOF;
@@ -43,11 +45,20 @@ type memTransport struct {
 	// a middleware around the httpgrpc handlers): the early-response rule does not apply, a reply travels
 	// while the request body is still open
 	fullDuplex bool
+	// srvDeadline: the request context the handlers get already carries a (far) deadline of the server's own,
+	// as behind http.TimeoutHandler or a middleware that bounds every request
+	srvDeadline bool
 }
 
-func newMemTransport(h http.Handler, giveUp, fullDuplex bool) http.RoundTripper {
-	return &memTransport{h: h, giveUp: giveUp, fullDuplex: fullDuplex}
+func newMemTransport(h http.Handler, giveUp, fullDuplex, srvDeadline bool) http.RoundTripper {
+	return &memTransport{h: h, giveUp: giveUp, fullDuplex: fullDuplex, srvDeadline: srvDeadline}
 }
+
+// farDeadlineCtx is a request context that has a deadline far beyond anything the caller asks for (the
+// server's own bound on a request never passes within a scenario).
+type farDeadlineCtx struct{ context.Context }
+
+func (farDeadlineCtx) Deadline() (time.Time, bool) { return mc.TimeBase.Add(1000 * time.Hour), true }
 
 type memConn struct {
 	t *memTransport
@@ -118,7 +129,11 @@ func (t *memTransport) RoundTrip(req *http.Request) (*http.Response, error) {
 	})
 	// server side
 	sctx, scancel := mc.WithCancel(context.Background())
-	sreq := req.Clone(sctx)
+	var rctx context.Context = sctx
+	if t.srvDeadline {
+		rctx = farDeadlineCtx{sctx}
+	}
+	sreq := req.Clone(rctx)
 	sreq.RemoteAddr = "192.0.2.7:4321"
 	sreq.RequestURI = req.URL.RequestURI()
 	sreq.ContentLength = -1
